@@ -268,6 +268,7 @@ def run_property(pid, tier, seed, nshards=None, replay=None, workers=None):
         absorb(r['failures'], r.get('fail_counts'))
 
     # 3. classify, shrink new signatures, report
+    shrink_deadline = (time.perf_counter() - t_start) + 240
     known_hit = collections.Counter()
     violations = []
     for sig in sorted(all_failures):
@@ -276,7 +277,9 @@ def run_property(pid, tier, seed, nshards=None, replay=None, workers=None):
         if k is not None:
             known_hit[k.get('id', k.get('signature'))] += counts_by_sig[sig]
             continue
-        if hasattr(mod, 'shrink'):
+        # minimisation is a convenience for the reader of the replay file, not part of the verdict:
+        # bounded per run (first 8 new signatures, 240 s in total)
+        if hasattr(mod, 'shrink') and len(violations) < 8 and time.perf_counter() - t_start < shrink_deadline:
             try:
                 small = mod.shrink(f['case'], sig)
                 if small is not None:
